@@ -1055,7 +1055,7 @@ impl PatProp for ReplaceModel {
         // a search error is returned as Err, never a panic
         let mut err_path = false;
         if let Some(lre) = &p.limited {
-            for tpl in ["X", "$0"] {
+            for tpl in ["X", "$0", "<$0>", "[$1]"] {
                 match catch_unwind(AssertUnwindSafe(|| lre.try_replacen(t, 0, tpl).map(|c| c.into_owned()))) {
                     Err(e) => return Verdict::Fail(Fail::new("panic", "Ok or Err under backtrack_limit(1)", format!("template {:?}: PANIC({})", tpl, engine::panic_msg(e)))),
                     Ok(Err(_)) => err_path = true,
@@ -1064,6 +1064,19 @@ impl PatProp for ReplaceModel {
                         if s != want {
                             return Verdict::Fail(Fail::new("replace-limited", format!("Err or {:?}", want), format!("{:?}", s)));
                         }
+                    }
+                }
+            }
+        }
+        if let Some(lre) = &p.limited {
+            // same through a closure replacer (the capture-expanding path)
+            match catch_unwind(AssertUnwindSafe(|| lre.try_replacen(t, 0, |c: &Captures<'_>| format!("<{}>", &c[0])).map(|c| c.into_owned()))) {
+                Err(e) => return Verdict::Fail(Fail::new("panic", "Ok or Err under backtrack_limit(1)", format!("closure: PANIC({})", engine::panic_msg(e)))),
+                Ok(Err(_)) => err_path = true,
+                Ok(Ok(s)) => {
+                    let want = model(0, &|c| format!("<{}>", &t[c[0].unwrap().0..c[0].unwrap().1]));
+                    if s != want {
+                        return Verdict::Fail(Fail::new("replace-limited", format!("Err or {:?}", want), format!("closure replacer: {:?}", s)));
                     }
                 }
             }
@@ -1221,6 +1234,44 @@ impl PatProp for Meta {
             if c.name("nosuchname").is_some() {
                 return Err(Fail::new("name-unknown", "None", "Some"));
             }
+            // the iterator after it has been advanced: nth / skip / step_by / count / size_hint agree with get(i)
+            let len = c.len();
+            for a in 0..=len.min(3) {
+                for n in 0..3usize {
+                    let mut it = c.iter();
+                    for _ in 0..a {
+                        it.next();
+                    }
+                    let got = it.nth(n).map(|m| m.map(|m| (m.start(), m.end())));
+                    let want = by_get.get(a + n).copied();
+                    if got != want {
+                        return Err(Fail::new("iter-nth", format!("after {} next() calls nth({}) == get({}) == {:?}", a, n, a + n, want), format!("{:?}", got)));
+                    }
+                    let rest: Vec<refm::Span> = it.take(len + 2).map(|m| m.map(|m| (m.start(), m.end()))).collect();
+                    let want_rest: Vec<refm::Span> = by_get.iter().skip(a + n + 1).copied().collect();
+                    if rest != want_rest {
+                        return Err(Fail::new("iter-after-nth", format!("{:?}", want_rest), format!("{:?}", rest)));
+                    }
+                }
+                let mut it = c.iter();
+                for _ in 0..a {
+                    it.next();
+                }
+                let stepped: Vec<refm::Span> = it.step_by(2).take(len + 2).map(|m| m.map(|m| (m.start(), m.end()))).collect();
+                let want_stepped: Vec<refm::Span> = by_get.iter().skip(a).step_by(2).copied().collect();
+                if stepped != want_stepped {
+                    return Err(Fail::new("iter-step_by", format!("after {} next() calls step_by(2): {:?}", a, want_stepped), format!("{:?}", stepped)));
+                }
+                let mut it = c.iter();
+                for _ in 0..a {
+                    it.next();
+                }
+                let (lo, hi) = it.size_hint();
+                let cnt = it.take(len + 2).count();
+                if cnt != len - a.min(len) || lo > cnt || hi.map_or(false, |h| h < cnt) {
+                    return Err(Fail::new("iter-count", format!("{} items left after {} next() calls", len - a.min(len), a), format!("count {} size_hint ({}, {:?})", cnt, lo, hi)));
+                }
+            }
             Ok(Some(by_get.iter().skip(1).any(|g| g.is_none())))
         }));
         match r {
@@ -1237,7 +1288,7 @@ impl PatProp for Meta {
 
 pub fn run_c16(ctx: &RunCtx) -> Outcome {
     let mut o = Outcome::default();
-    o.rule = "patterns with >= 1 group from the unrestricted space, a hash-chosen subset of groups named (x, y1, _z, π; (?<n>..) or (?P<n>..)), back-references respelled \\k<..> / (?P=..) as required; each pattern in its own form and with (?=) appended (forces the VM); oracle from the AST: captures_len == 1 + #groups, capture_names == [None, names...], and for every match at every offset Captures::len == captures_len, iter() == get(i) for all i, get(0) is Some, get(len+k) is None, name(n) == get(index of n), unknown name => None. Non-trivial = >= 2 groups, at least one named, at least one unmatched in the match. Distinct = distinct (pattern spelling, text, offset).".into();
+    o.rule = "patterns from the unrestricted space (all with >= 1 group, a quarter of those without any), a hash-chosen subset of groups named (x, y1, _z, π; (?<n>..) or (?P<n>..)), back-references respelled \\k<..> / (?P=..) as required; each pattern in its own form and with (?=) appended (forces the VM); oracle from the AST: captures_len == 1 + #groups, capture_names == [None, names...], and for every match at every offset Captures::len == captures_len, iter() == get(i) for all i, get(0) is Some, get(len+k) is None, name(n) == get(index of n), unknown name => None; Captures::iter() advanced by 0..3 next() calls and then asked for nth(0..2), the rest, step_by(2), count and size_hint agrees with get(i). Non-trivial = >= 2 groups, at least one named, at least one unmatched in the match. Distinct = distinct (pattern spelling, text, offset).".into();
     o.assumptions = vec!["group count and names are computed from the harness AST / printer, not from the crate".into()];
     o.required_classes = vec!["engine:VM".into(), "engine:Wrap".into(), "groups:some-named".into(), "match:VM".into(), "match:Wrap".into()];
     let (enumerated, prods) = wild_spaces(ctx);
@@ -1245,9 +1296,10 @@ pub fn run_c16(ctx: &RunCtx) -> Outcome {
     grp_cfg.leaves.truncate(6);
     // a group under {0} still counts as a group
     grp_cfg.unary.push(|c| if c.repeatable() { Some(Repeat(Box::new(c), 0, Some(0), crate::ast::Q::Greedy)) } else { None });
-    let plain: Vec<Node> = space(&grp_cfg, if ctx.quick() { 4 } else { 5 }, false).into_iter().filter(|n| n.n_groups() >= 1).collect();
-    let enumerated: Vec<Node> = enumerated.into_iter().filter(|n| n.n_groups() >= 1).collect();
-    let prods: Vec<Node> = prods.into_iter().filter(|n| n.n_groups() >= 1).collect();
+    // patterns without any group take part too (Captures::len == 1, nothing but group 0 visible)
+    let plain: Vec<Node> = space(&grp_cfg, if ctx.quick() { 4 } else { 5 }, false).into_iter().filter(|n| n.n_groups() >= 1 || n.size() <= 3).collect();
+    let enumerated: Vec<Node> = enumerated.into_iter().filter(|n| n.n_groups() >= 1 || n.size() <= 3 || hash64(&n.to_pattern()) % 4 == 0).collect();
+    let prods: Vec<Node> = prods.into_iter().filter(|n| n.n_groups() >= 1 || hash64(&n.to_pattern()) % 4 == 0).collect();
     let texts = {
         let mut t = gen::texts(&['a', 'b', 'é'], 3);
         t.extend(["aaaa", "abab", "aabb"].iter().map(|s| s.to_string()));
@@ -1266,7 +1318,7 @@ pub fn run_c16(ctx: &RunCtx) -> Outcome {
             return o;
         }
         let cases = if ctx.quick() { 60_000 } else { 1_000_000 };
-        if !stage_random(ctx, &mut o, &p, &format!("random unrestricted{}", tag), &RandCfg::wild(), &texts, cases, &|n| n.n_groups() >= 1) {
+        if !stage_random(ctx, &mut o, &p, &format!("random unrestricted{}", tag), &RandCfg::wild(), &texts, cases, &|n| n.n_groups() >= 1 || hash64(&n.to_pattern()) % 4 == 0) {
             return o;
         }
     }
